@@ -32,7 +32,7 @@ from specs import lattice as L
 
 NEAR_ORTHO_CLAUSE = "minimum-image-in-slightly-triclinic-cell"
 FUNCS = "md.compute_distances, md.compute_displacements, md.compute_distances_t, compute_distances_core, find_closest_contact"
-C05_FAMILIES = L.FAMILIES + ["near-ortho"]
+C05_FAMILIES = L.FAMILIES + ["near-ortho", "prism-c-varies"]
 
 
 # ------------------------------------------------------------------------------------------------
@@ -46,6 +46,14 @@ def family_cells(family, rng, n_frames, constant=False):
         l = L._lengths(rng, 3.0, 9.0)
         ang = 90.0 + rng.choice([-1, 1], size=3) * rng.uniform(5e-4, 8e-4, size=3)
         lengths, angles = np.tile(l, (n_frames, 1)), np.tile(ang, (n_frames, 1))
+    elif family == "prism-c-varies":
+        # constant-area ensemble: a hexagonal/monoclinic prism whose in-plane cell (a, b, gamma) is the SAME in every frame while the height c
+        # fluctuates -- consecutive frames share most of their cell matrix but not all of it
+        ab = float(rng.uniform(3.0, 6.0))
+        gamma = float(rng.choice([60.0, 120.0, 75.0]))
+        c = rng.uniform(3.5, 9.0, size=n_frames)
+        lengths = np.stack([np.full(n_frames, ab), np.full(n_frames, ab), c], axis=1)
+        angles = np.tile([90.0, 90.0, gamma], (n_frames, 1))
     else:
         lengths, angles = L.cells(family, rng, n_frames)
     if constant:
@@ -527,7 +535,7 @@ def run(tier, seed, hint):
         eval_euclid_case(chks, case)
         tc = dict(case, n_frames=max(2, case["n_frames"]), n_pairs=max(6, case["n_pairs"] // 2))
         eval_time_case(chks, dict(tc, constant=True), fb["time"])
-        if case["family"] in ("varying", "mixed-ortho-tric", "triclinic", "ortho"):
+        if case["family"] in ("varying", "mixed-ortho-tric", "triclinic", "ortho", "prism-c-varies"):
             eval_time_case(chks, dict(tc, constant=False), fb["time"])
         if case["pts"] == "inside":
             eval_empty_case(chks, case)
